@@ -692,17 +692,48 @@ fn settings_walk(m: &mut map::Reader, d: usize, t: &mut Tally) {
     }
 }
 
+thread_local! {
+    /// first index handed out by a map accessor that lies outside the range it refers to
+    static RANGE_ERR: std::cell::RefCell<Option<String>> = std::cell::RefCell::new(None);
+}
+
+/// "every index taken from an item is range-checked against the item-type range or data count
+/// before use": an index an accessor hands out must lie inside the range it refers to (otherwise
+/// following it reads an item of another type / a data block that does not exist).
+fn in_range(what: &str, idx: usize, range: &std::ops::Range<usize>) {
+    if !range.contains(&idx) {
+        RANGE_ERR.with(|e| {
+            let mut e = e.borrow_mut();
+            if e.is_none() {
+                *e = Some(format!("{} = {} handed out, but the range it refers to is {:?}", what, idx, range));
+            }
+        });
+    }
+}
+
+fn take_range_err() -> Option<String> {
+    RANGE_ERR.with(|e| e.borrow_mut().take())
+}
+
 /// Calls every accessor of the map reader. `full`: additionally every data-index accessor on
 /// every data index (otherwise only on the indices the items hand out).
 pub fn traverse_map(r: df::Reader, pre: &Option<Pre>, full: bool, t: &mut Tally) -> map::Reader {
     use map::reader::{LayerTilemapType as T, LayerType};
     let mut m = map::Reader::from_datafile(r);
     let nd = m.reader.num_data();
+    let data_r = 0..nd;
+    let image_r = m.reader.item_type_indices(map::format::MAP_ITEMTYPE_IMAGE);
+    let env_r = m.reader.item_type_indices(map::format::MAP_ITEMTYPE_ENVELOPE);
+    let layer_r = m.reader.item_type_indices(map::format::MAP_ITEMTYPE_LAYER);
+    let sound_r = m.reader.item_type_indices(map::format::MAP_ITEMTYPE_DDRACE_SOUND);
     let _ = m.version();
     let _ = m.check_version();
     match m.info() {
         Ok(info) => {
             bump(t, "info:ok");
+            for idx in [info.author, info.version, info.credits, info.license, info.settings].into_iter().flatten() {
+                in_range("info: data index", idx, &data_r);
+            }
             for idx in [info.author, info.version, info.credits, info.license].into_iter().flatten() {
                 if data_allowed(pre, idx) {
                     let _ = m.string(idx);
@@ -721,6 +752,10 @@ pub fn traverse_map(r: df::Reader, pre: &Option<Pre>, full: bool, t: &mut Tally)
         match m.image(i) {
             Ok(img) => {
                 bump(t, "image:ok");
+                in_range("image: name data index", img.name, &data_r);
+                if let Some(d) = img.data {
+                    in_range("image: data index", d, &data_r);
+                }
                 if data_allowed(pre, img.name) {
                     let _ = m.image_name(img.name);
                 }
@@ -743,6 +778,10 @@ pub fn traverse_map(r: df::Reader, pre: &Option<Pre>, full: bool, t: &mut Tally)
             }
         };
         bump(t, "group:ok");
+        if !group.layer_indices.is_empty() {
+            in_range("group: first layer index", group.layer_indices.start, &layer_r);
+            in_range("group: last layer index", group.layer_indices.end - 1, &layer_r);
+        }
         for l in group.layer_indices.clone() {
             burn();
             let layer = match m.layer(l) {
@@ -753,6 +792,41 @@ pub fn traverse_map(r: df::Reader, pre: &Option<Pre>, full: bool, t: &mut Tally)
                 }
             };
             bump(t, "layer:ok");
+            match &layer.t {
+                LayerType::Quads(q) => {
+                    in_range("quads layer: data index", q.data, &data_r);
+                    if let Some(i) = q.image {
+                        in_range("quads layer: image index", i, &image_r);
+                        let _ = m.image(i);
+                    }
+                }
+                LayerType::DdraceSounds(s) => {
+                    in_range("sounds layer: data index", s.data, &data_r);
+                    if let Some(i) = s.sound {
+                        in_range("sounds layer: sound index", i, &sound_r);
+                    }
+                }
+                LayerType::Tilemap(tm) => {
+                    if let Some(n) = tm.type_.to_normal() {
+                        in_range("tile layer: data index", n.data, &data_r);
+                        if let Some(i) = n.image {
+                            in_range("tile layer: image index", i, &image_r);
+                            let _ = m.image(i);
+                        }
+                        if let Some((i, _)) = n.color_env_and_offset {
+                            in_range("tile layer: colour envelope index", i, &env_r);
+                        }
+                    }
+                    match tm.type_ {
+                        T::Normal(_) => {}
+                        T::Game(d) => in_range("game layer: data index", d, &data_r),
+                        T::RaceTeleport(d, z) | T::RaceSpeedup(d, z) | T::DdraceFront(d, z) | T::DdraceSwitch(d, z) | T::DdraceTune(d, z) => {
+                            in_range("physics layer: data index", d, &data_r);
+                            in_range("physics layer: second data index", z, &data_r);
+                        }
+                    }
+                }
+            }
             match layer.t {
                 LayerType::Quads(q) => {
                     if data_allowed(pre, q.data) {
@@ -918,7 +992,12 @@ pub fn check_total(bytes: &[u8], mode: u8, as_map: u8, known: Known, t: &mut Tal
         Verdict::Accepted
     });
     unlimited_fuel();
-    r.map_err(|p| p.to_string())
+    let range_err = take_range_err();
+    let v = r.map_err(|p| p.to_string())?;
+    if let Some(e) = range_err {
+        return Err(format!("map accessor handed out an index outside the range it refers to: {}", e));
+    }
+    Ok(v)
 }
 
 /// Totality oracle for the fuzz target: any byte string, opened as datafile and as map.
@@ -1897,7 +1976,11 @@ fn check_map_wellformed(mm: &MapM) -> PResult {
     set_fuel(4_000_000);
     let r = merr("open", guard(|| open_df(&bytes, 0)).map_err(|p| p.to_string())?)?;
     // totality of the complete traversal first
+    let _ = take_range_err();
     let mut m = guard(|| traverse_map(r, &pre, true, &mut t)).map_err(|p| format!("map traversal: {}", p))?;
+    if let Some(e) = take_range_err() {
+        return Err(format!("well-formed map: accessor handed out an index outside the range it refers to: {}", e));
+    }
     unlimited_fuel();
     // read-back against doc/map.md
     ensure_eq!(merr("version", m.version())?, 1, "version()");
